@@ -63,7 +63,8 @@ def make_world():
     k = np.arange(N)[:, None, None]
     ju, iu = np.meshgrid(np.arange(jmax), np.arange(imax - 1), indexing="ij")
     jv, iv = np.meshgrid(np.arange(jmax - 1), np.arange(imax), indexing="ij")
-    f0 = dict(u=0.125 * (k + 1) + 0.03125 * ju[None] + 0 * iu[None], v=-0.0625 * k + 0.015625 * iv[None] + 0 * jv[None],
+    # deliberately NOT dyadic and varying along both axes: any change in the order of floating-point operations shows in the last bit
+    f0 = dict(u=(0.125 * (k + 1) + 0.03125 * ju[None] + 0.017 * iu[None]) * 1.1, v=(-0.0625 * k + 0.015625 * iv[None] - 0.011 * jv[None]) * 0.9,
               temp=4.0 + ((k * 7 + jj[None] * 3 + ii[None]) % 8) / 4.0)
     f1 = dict(u=f0["u"] * 1.5, v=f0["v"] - 0.03125, temp=f0["temp"] + 1.0)
     return w, f0, f1
